@@ -43,7 +43,7 @@ ASSUMPTIONS = [
     "the baseline of a file is its analysis alone, in a child forked from an interpreter that has imported codelimit but analysed nothing, hash seed 0",
     "an exception is part of a file's observable result (its type is digested)",
 ]
-FLOOR = {"quick": 30, "thorough": 500}
+FLOOR = {"quick": 30, "thorough": 300}
 WORKER = str(HOME / "vf" / "harness" / "c06_worker.py")
 
 
